@@ -2286,4 +2286,276 @@ theorem index_prefix {exists_ : Bytes → Bool} {dr p v : Bytes} {names : List B
     · rw [if_neg he]; exact ih (fun x hx => hidx x (by simp [hx]))
 
 
+theorem serveRequest_spec {o : Opts} {cfg : ServeCfg} {isdir exists_ : Bytes → Bool} {special : Bool}
+    {raw target p d : Bytes}
+    (hal : ∀ kv ∈ cfg.aliases, CanonicalAbs kv.2)
+    (hidx : ∀ v ∈ cfg.index, NoDotSeg (absName v))
+    (h : serveRequest o cfg isdir exists_ special raw target = .file p d) :
+    special = false ∧ ∃ a, authorityOf o 80 raw = some a ∧ DesignatedRoot cfg a d ∧
+      ∃ root, DesignatedRoot cfg a root ∧
+        (LexBelow root p ∨
+         (∃ k v, (k, v) ∈ cfg.aliases ∧ root = v ∧ endsWithSlash v = false ∧ ∃ rest, p = v ++ rest ∧ NoDotSeg p)) := by
+  unfold serveRequest at h
+  cases special with
+  | true => simp at h
+  | false =>
+    refine ⟨rfl, ?_⟩
+    simp only [Bool.false_eq_true, ↓reduceIte] at h
+    cases ht : parseTarget o false target with
+    | error e => rw [ht] at h; simp at h
+    | ok t =>
+      cases ha : authorityOf o 80 raw with
+      | none => rw [ht, ha] at h; simp at h
+      | some a =>
+        rw [ht, ha] at h
+        simp only at h
+        refine ⟨a, rfl, ?_⟩
+        have hdr : DesignatedRoot cfg a (vhostRoot o.hostStrict cfg.docroot cfg.vh isdir a) :=
+          .vhost (vhostRoot_ok ha)
+        cases hsp : servePath o cfg.lc cfg.docroot cfg.vh isdir cfg.aliases raw target with
+        | reject st => rw [hsp] at h; simp at h
+        | path p0 d0 =>
+          rw [hsp] at h
+          simp only at h
+          obtain ⟨a', t', ha', ht', hcases⟩ := servePath_spec hal hsp
+          rw [ha] at ha'; rw [ht] at ht'
+          simp only [Option.some.injEq, Except.ok.injEq] at ha' ht'
+          subst ha'; subst ht'
+          -- the state after mod_alias: basedir d0 designated, p0 below it (or prefixed by it)
+          have hd0 : DesignatedRoot cfg a d0 := by
+            rcases hcases with ⟨e, _⟩ | ⟨k, v, hm, e, _⟩
+            · rw [e]; exact hdr
+            · rw [e]; exact .alias hm
+          have hcan : CanonicalAbs t.path := by
+            unfold parseTarget at ht
+            simp only [Bool.false_eq_true, ↓reduceIte] at ht
+            split at ht
+            · simp at ht
+            · split at ht <;>
+              · split at ht
+                · rename_i hhead
+                  simp only [Except.ok.injEq] at ht
+                  subst ht
+                  exact pathSimplify_head_canonical _ hhead
+                · simp at ht
+          have hrel : NoDotSeg (if cfg.lc then lowerBytes t.path else t.path) := by
+            cases cfg.lc
+            · simpa using canonical_noDotSeg hcan
+            · simpa [lowerBytes] using canonical_noDotSeg (canonical_map_toLower hcan)
+          -- after mod_userdir
+          generalize hud : userdirStep cfg t.path = ud at h
+          have hstate : DesignatedRoot cfg a (afterUserdir ud p0 d0).2 ∧
+              (LexBelow (afterUserdir ud p0 d0).2 (afterUserdir ud p0 d0).1 ∨
+               (∃ k v, (k, v) ∈ cfg.aliases ∧ (afterUserdir ud p0 d0).2 = v ∧ endsWithSlash v = false ∧
+                  ∃ rest, (afterUserdir ud p0 d0).1 = v ++ rest ∧ NoDotSeg (afterUserdir ud p0 d0).1)) := by
+            have hkeep : DesignatedRoot cfg a d0 ∧
+                (LexBelow d0 p0 ∨
+                 (∃ k v, (k, v) ∈ cfg.aliases ∧ d0 = v ∧ endsWithSlash v = false ∧ ∃ rest, p0 = v ++ rest ∧ NoDotSeg p0)) := by
+              refine ⟨hd0, ?_⟩
+              rcases hcases with ⟨_, hb⟩ | ⟨k, v, hm, e, rest, hp, hn, hh⟩
+              · exact Or.inl hb
+              · by_cases hv : endsWithSlash v = true
+                · left; rw [e, hp]; exact lexBelow_of_prefix_slash hv (hp ▸ hn)
+                · right; exact ⟨k, v, hm, e, by simpa using hv, rest, hp, hn⟩
+            cases ud with
+            | go p' b =>
+              simp only [afterUserdir]
+              unfold userdirStep at hud
+              cases hu : cfg.userdir with
+              | none => rw [hu] at hud; simp at hud
+              | some u =>
+                rw [hu] at hud
+                simp only at hud
+                obtain ⟨⟨name, hcl, hb⟩, hbelow⟩ := userdirRemap_spec hrel hud
+                exact ⟨by rw [hb]; exact .userdir hu hcl, Or.inl hbelow⟩
+            | pass => simpa [afterUserdir] using hkeep
+            | redirect => simpa [afterUserdir] using hkeep
+          generalize afterUserdir ud p0 d0 = pd at h hstate
+          obtain ⟨hd1, hb1⟩ := hstate
+          split at h
+          · simp at h
+          · split at h
+            · simp only [ServeOut.file.injEq] at h
+              obtain ⟨rfl, rfl⟩ := h
+              refine ⟨hd1, ?_⟩
+              rcases hb1 with hb1 | ⟨k, v, hm, e, hv, hrest⟩
+              · rcases index_below (exists_ := exists_) (dr := vhostRoot o.hostStrict cfg.docroot cfg.vh isdir a) hidx hb1 with hx | hx
+                · exact ⟨_, hd1, Or.inl hx⟩
+                · exact ⟨_, hdr, Or.inl hx⟩
+              · have hvne : v ≠ [] := canonical_ne_nil (hal _ hm)
+                rcases index_prefix (exists_ := exists_) (dr := vhostRoot o.hostStrict cfg.docroot cfg.vh isdir a) hidx hv hvne hrest with hx | hx
+                · exact ⟨_, hd1, Or.inr ⟨k, v, hm, e, hv, hx⟩⟩
+                · exact ⟨_, hdr, Or.inl hx⟩
+            · simp only [ServeOut.file.injEq] at h
+              obtain ⟨rfl, rfl⟩ := h
+              exact ⟨hd1, _, hd1, hb1⟩
+
+
+/-- buffer_append_slash() on a canonical path: canonical, ends in '/' -/
+theorem canonical_appendSlash {r : Bytes} (h : CanonicalAbs r) :
+    CanonicalAbs (appendSlash r) ∧ endsWithSlash (appendSlash r) = true := by
+  have hne := canonical_ne_nil h
+  by_cases he : endsWithSlash r = true
+  · have : appendSlash r = r := by unfold appendSlash; simp [he]
+    rw [this]; exact ⟨h, he⟩
+  · have he' : endsWithSlash r = false := by simpa using he
+    have ha : appendSlash r = r ++ [slash] := by unfold appendSlash; simp [he', hne]
+    rw [ha]
+    refine ⟨?_, by simp [endsWithSlash]⟩
+    obtain ⟨stack, hc, hr⟩ := h
+    rcases hr with hr | ⟨_, hr⟩
+    · have hsne : stack ≠ [] := by
+        intro e; subst e; rw [hr] at he'; simp [join, endsWithSlash] at he'
+      exact ⟨stack, hc, Or.inr ⟨hsne, by rw [hr]; simp⟩⟩
+    · exfalso
+      rw [hr] at he'
+      have : (slash :: (join slash stack ++ [slash])) = (slash :: join slash stack) ++ [slash] := by simp
+      rw [this] at he'
+      unfold endsWithSlash at he'
+      rw [List.getLast?_concat] at he'
+      simp at he'
+
+/-! ### bytes of a simplified path -/
+
+def SegsFrom (s : Bytes) (st : SimpSt) : Prop := ∀ seg ∈ st.stack, ∀ b ∈ seg, b ∈ s
+
+theorem pop_from {s : Bytes} {st : SimpSt} (h : SegsFrom s st) : SegsFrom s st.pop := by
+  unfold SimpSt.pop
+  split
+  · intro seg hs; simp at hs
+  · intro seg hs; exact h seg (List.dropLast_subset _ (by simpa using hs))
+
+theorem simpMid_from {s : Bytes} {st : SimpSt} {seg : Bytes} (h : SegsFrom s st) (hs : ∀ b ∈ seg, b ∈ s) :
+    SegsFrom s (simpMid st seg) := by
+  unfold simpMid
+  split
+  · exact h
+  · split
+    · exact pop_from h
+    · intro x hx
+      simp only [SimpSt.push, List.mem_append, List.mem_singleton] at hx
+      rcases hx with hx | hx
+      · exact h x hx
+      · subst hx; exact hs
+
+theorem simpLast_from {s : Bytes} {st : SimpSt} {seg : Bytes} (h : SegsFrom s st) (hs : ∀ b ∈ seg, b ∈ s) :
+    SegsFrom s (simpLast st seg).1 := by
+  unfold simpLast
+  split
+  · exact h
+  · split
+    · exact pop_from h
+    · intro x hx
+      simp only [SimpSt.push, List.mem_append, List.mem_singleton] at hx
+      rcases hx with hx | hx
+      · exact h x hx
+      · subst hx; exact hs
+
+theorem foldl_simpMid_from {s : Bytes} (segs : List Bytes) : ∀ {st : SimpSt}, SegsFrom s st →
+    (∀ seg ∈ segs, ∀ b ∈ seg, b ∈ s) → SegsFrom s (segs.foldl simpMid st) := by
+  induction segs with
+  | nil => intro st h _; simpa
+  | cons x xs ih =>
+    intro st h hn
+    simp only [List.foldl_cons]
+    exact ih (simpMid_from h (hn x (by simp))) (fun sg hs => hn sg (by simp [hs]))
+
+theorem join_mem {l : List Bytes} {b : UInt8} (h : b ∈ join slash l) : b = slash ∨ ∃ seg ∈ l, b ∈ seg := by
+  induction l with
+  | nil => simp [join] at h
+  | cons p ps ih =>
+    cases ps with
+    | nil => simp only [join] at h; right; exact ⟨p, by simp, h⟩
+    | cons q qs =>
+      simp only [join, List.mem_append, List.mem_cons] at h
+      rcases h with h | h | h
+      · right; exact ⟨p, by simp, h⟩
+      · left; exact h
+      · rcases ih h with e | ⟨seg, hs, hb⟩
+        · left; exact e
+        · right; exact ⟨seg, by simp [hs], hb⟩
+
+theorem render_from {s : Bytes} {st : SimpSt} (h : SegsFrom s st) (tr : Bool) :
+    ∀ b ∈ st.render tr, b = slash ∨ b ∈ s := by
+  intro b hb
+  have hbody : ∀ b ∈ join slash st.stack, b = slash ∨ b ∈ s := by
+    intro b hb
+    rcases join_mem hb with e | ⟨seg, hs, hm⟩
+    · left; exact e
+    · right; exact h seg hs b hm
+  have hsub : ∀ b ∈ st.render tr, b = slash ∨ b ∈ join slash st.stack := by
+    intro b hb
+    unfold SimpSt.render at hb
+    cases hrel : st.rel <;> by_cases hc : (tr && !st.stack.isEmpty) = true <;>
+      simp only [hrel, hc, Bool.false_eq_true, if_false, if_true, List.nil_append, List.mem_append,
+                 List.mem_singleton, List.mem_cons, List.not_mem_nil, or_false, false_or] at hb <;>
+      (first | exact Or.inr hb | (rcases hb with hb | hb <;> first | exact Or.inl hb | exact Or.inr hb) |
+             (rcases hb with (hb | hb) | hb <;> first | exact Or.inl hb | exact Or.inr hb))
+  rcases hsub b hb with e | e
+  · left; exact e
+  · exact hbody b e
+
+theorem mem_join_of (sep : UInt8) : ∀ (l : List Bytes) (seg : Bytes) (b : UInt8), seg ∈ l → b ∈ seg →
+    b ∈ join sep l := by
+  intro l
+  induction l with
+  | nil => intro seg b hs; simp at hs
+  | cons p ps ih =>
+    intro seg b hs hb
+    simp only [List.mem_cons] at hs
+    cases ps with
+    | nil =>
+      rcases hs with e | e
+      · subst e; simpa [join] using hb
+      · simp at e
+    | cons q qs =>
+      simp only [join, List.mem_append, List.mem_cons]
+      rcases hs with e | e
+      · subst e; left; exact hb
+      · right; right; exact ih seg b (by simpa using e) hb
+
+theorem splitOn_mem_sub (sep : UInt8) (s : Bytes) : ∀ seg ∈ splitOn sep s, ∀ b ∈ seg, b ∈ s := by
+  intro seg hs b hb
+  have := mem_join_of sep _ seg b hs hb
+  rwa [join_splitOn] at this
+
+theorem simpRun_from {s : Bytes} {st : SimpSt} {segs : List Bytes} (h : SegsFrom s st)
+    (hn : ∀ seg ∈ segs, ∀ b ∈ seg, b ∈ s) : ∀ b ∈ simpRun st segs, b = slash ∨ b ∈ s := by
+  unfold simpRun
+  cases hl : segs.getLast? with
+  | none => exact render_from h false
+  | some last =>
+    have hlast : last ∈ segs := List.mem_of_getLast? hl
+    have hmid : ∀ seg ∈ segs.dropLast, ∀ b ∈ seg, b ∈ s := fun sg hs => hn sg (List.dropLast_subset _ hs)
+    exact render_from (simpLast_from (foldl_simpMid_from _ h hmid) (hn last hlast)) _
+
+/-- buffer_path_simplify() invents no byte: every byte of the result is a '/' or a byte of the input -/
+theorem pathSimplify_bytes (s : Bytes) : ∀ b ∈ pathSimplify s, b = slash ∨ b ∈ s := by
+  have hsub := splitOn_mem_sub slash s
+  have h0 : SegsFrom s { rel := false, stack := [] } := by intro seg hs; simp at hs
+  unfold pathSimplify
+  cases s with
+  | nil => simp
+  | cons c t =>
+    simp only
+    cases hsp : splitOn slash (c :: t) with
+    | nil => simp
+    | cons f rest =>
+      rw [hsp] at hsub
+      have hf : ∀ b ∈ f, b ∈ c :: t := hsub f (by simp)
+      have hr : ∀ seg ∈ rest, ∀ b ∈ seg, b ∈ c :: t := fun sg hs => hsub sg (by simp [hs])
+      simp only
+      split
+      · exact simpRun_from h0 hr
+      · cases rest with
+        | nil => simp only; split
+                 · simp
+                 · intro b hb; right; exact hf b hb
+        | cons r rs =>
+          simp only
+          split
+          · exact simpRun_from h0 hr
+          · exact simpRun_from (st := { rel := true, stack := [f] })
+              (by intro seg hs; simp at hs; subst hs; exact hf) hr
+
 end LtVerif
